@@ -300,8 +300,8 @@ def _close_params(sa, sb, kinds, tol_fn, what, step, oracle, key):
                             (what, i, ps["kind"] + ":" + str(ps.get("fam", "")), err, tol), step, key)
 
 
-def _sim3_retraction_slack(kinds, D, snap, eps):
-    """Round-off of the Sim3 retraction itself.  pypose evaluates the translation coupling W(phi, sigma) of
+def _retraction_slack(kinds, D, snap, eps):
+    """Round-off of the SE3 / Sim3 retraction itself.  pypose evaluates the translation coupling W(phi, sigma) of
     sim3 Exp by closed forms with cancellation: (exp(sigma) - 1) / sigma loses eps/|sigma| relative accuracy for
     small |sigma| > eps, and the mixed coefficients lose eps * max(theta, |sigma|) / (theta^2 + sigma^2) when both
     are small (the thin band reported under C01, which is not a simulation target; measured here: theta=0.06,
@@ -316,11 +316,17 @@ def _sim3_retraction_slack(kinds, D, snap, eps):
         if ps.get("frozen"):
             continue
         n = p.numel()
-        if ps["kind"] == "grp" and ps["fam"] == "Sim3":
-            d = Dv[k:k + n].reshape(-1, 8)
+        if ps["kind"] == "grp" and ps["fam"] in ("Sim3", "SE3"):
+            sd = 8 if ps["fam"] == "Sim3" else 7
+            d = Dv[k:k + n].reshape(-1, sd)
             tau = np.abs(d[:, 0:3]).max(axis=1)
-            th = np.linalg.norm(d[:, 3:6], axis=1); sg = np.abs(d[:, 6])
-            amp = np.where(sg > eps, eps / np.maximum(sg, 1e-300), 0.0)
+            th = np.linalg.norm(d[:, 3:6], axis=1)
+            sg = np.abs(d[:, 6]) if ps["fam"] == "Sim3" else np.zeros_like(th)
+            # translation coupling of se3/sim3 Exp: (1 - cos theta)/theta^2 is evaluated by its closed form for every
+            # theta > eps and loses eps/theta^2 relative accuracy there; it multiplies theta*|tau| (measured: theta=1.3e-7,
+            # |tau|=0.08 gives 2.7e-12 in Exp(-d) Exp(d) X)
+            amp = np.where(th > eps, eps / np.maximum(th, 1e-300), 0.0)
+            amp = amp + np.where(sg > eps, eps / np.maximum(sg, 1e-300), 0.0)
             both = (sg > eps) & (th > eps)
             amp = amp + np.where(both, eps * np.maximum(th, sg) / (th * th + sg * sg + 1e-300), 0.0)
             res[i] = float((20 * tau * np.minimum(1.0, amp)).max())
@@ -516,7 +522,7 @@ def execute(plan, prop, out, tr):
                     blow = max(float(t_i.abs().max()) / (1 + float(s_i.abs().max())) for t_i, s_i in zip(tk["trial"], s_k) if t_i.numel())
                     if blow > 1e6 or Dn > 30:
                         out.declined("C08.restore(overflowing trial)"); n_rej += 1; pattern.append("reject"); continue
-                    slack = _sim3_retraction_slack(kinds, rs_["D"], s_k, eps)
+                    slack = _retraction_slack(kinds, rs_["D"], s_k, eps)
                     def tol_fn(i, xa, xb, t_=tk["trial"], Dn=Dn, slack=slack):
                         big = max(np.abs(xa).max() if xa.size else 0, float(t_[i].abs().max()) if t_[i].numel() else 0)
                         return 200 * eps * TS * (1 + big) * (1 + min(Dn, 1e3)) * slack.get(("mult", i), 1.0) + slack.get(i, 0.0)
